@@ -41,13 +41,17 @@ Structural == {123, 125, 91, 93, 44, 58}
 Inert(lit) == \A i \in 1..Len(lit) : lit[i] \notin Structural      \* cannot change the structure of a text it is embedded in
 
 Rejected == [acc |-> FALSE, has |-> FALSE, v |-> Zeros(8)]
+\* observation of "nothing decoded" per kind: integers and enums report eight zero bytes, bytes the empty payload, floats no bits
+Nothing(bk, acc) == IF bk \in {"float", "double"} THEN [acc |-> acc, has |-> FALSE]
+                    ELSE IF bk = "bytes" THEN [acc |-> acc, has |-> FALSE, v |-> <<>>]
+                    ELSE [acc |-> acc, has |-> FALSE, v |-> Zeros(8)]
 \* meaning of the single scalar token tk for kind k
 TokenMeaning(tk, k, ctx) ==
   LET bk == BaseKind(k)
       isNum == tk.k = "num"
       numLit == IF isNum THEN tk.t ELSE IF tk.k = "str" /\ IsNumber(tk.t) THEN tk.t ELSE <<>>   \* number or quoted number
   IN
-  IF tk.k = "null" THEN (IF ctx = "f" THEN [acc |-> TRUE, has |-> FALSE, v |-> Zeros(8)] ELSE Rejected)
+  IF tk.k = "null" THEN (IF ctx = "f" THEN Nothing(bk, TRUE) ELSE Nothing(bk, FALSE))
   ELSE IF bk \in IntKinds THEN
        (IF numLit = <<>> THEN Rejected
         ELSE LET m == IntMeaning(NumParts(numLit), bk) IN
@@ -58,7 +62,7 @@ TokenMeaning(tk, k, ctx) ==
                            IF m.ok THEN [acc |-> TRUE, has |-> TRUE, v |-> m.v] ELSE Rejected
         ELSE Rejected)
   ELSE IF bk = "bytes" THEN
-       (IF tk.k # "str" THEN Rejected
+       (IF tk.k # "str" THEN Nothing(bk, FALSE)
         ELSE LET b == B64Meaning(tk.t) IN
              IF b.cls = "ok" THEN [acc |-> TRUE, has |-> TRUE, v |-> b.v]
              ELSE IF b.cls = "bad" THEN [acc |-> FALSE, has |-> FALSE, v |-> <<>>]
@@ -75,8 +79,7 @@ TokenMeaning(tk, k, ctx) ==
 
 ExpectNum(e) ==
   LET g == ParseDoc(e.lit)
-      rej == IF BaseKind(e.k) \in {"float", "double"} THEN [acc |-> FALSE, has |-> FALSE]
-             ELSE IF e.k = "bytes" THEN [acc |-> FALSE, has |-> FALSE, v |-> <<>>] ELSE Rejected
+      rej == Nothing(BaseKind(e.k), FALSE)
   IN IF g.ok THEN (IF Len(g.c) = 1 THEN TokenMeaning(g.c[1], e.k, e.ctx) ELSE rej)     \* an object or array is never a scalar
      ELSE IF e.ctx = "w" \/ Inert(e.lit) THEN rej                                      \* the whole text is invalid JSON
      ELSE [ran |-> TRUE]
@@ -108,7 +111,8 @@ Judge(e) ==
          /\ ParseDoc(e.out.c).c = OpsCanon(e.ops)
          /\ DecRun(e.out.m).c = OpsCanon(e.ops)           \* and the real decoder's model reads the same tokens back
     [] e.op = "marshal" ->
-         /\ "err" \in DOMAIN e.out
+         /\ "err" \in DOMAIN e.out /\ "errm" \in DOMAIN e.out
+         /\ e.out.err = e.out.errm                       \* the layout never decides whether a message is representable
          /\ (e.out.err = 0 => /\ "c" \in DOMAIN e.out /\ "m" \in DOMAIN e.out
                               /\ SameValue(e.out.c, e.out.m))
     [] OTHER -> LET x == Expect(e) IN \A k \in DOMAIN x : k \in DOMAIN e.out /\ e.out[k] = x[k]
